@@ -318,6 +318,24 @@ func (p *phase) settle(woken []int, writerPoint string, when string) error {
 	}
 	needWriter := writerPoint != ""
 	p.deferOracle = true
+	mark := len(p.items)
+	defer func() {
+		// completion events are sent after the handler returned, i.e. after the mutex was
+		// released: two requesters can report in the opposite order of their critical sections.
+		// That only matters when one of them kept the mutex (the preload-hint closure on a
+		// closed stream): whoever answered did so before it, so it goes last.
+		var first, last []string
+		for _, it := range p.items[mark:] {
+			var i int
+			if n, _ := fmt.Sscanf(it, "SRun %d%%nat", &i); n == 1 && p.reqs[i].Kind == "path" &&
+				p.out[i].Class == "done" && p.out[i].Status == 500 {
+				last = append(last, it)
+			} else {
+				first = append(first, it)
+			}
+		}
+		p.items = append(append(p.items[:mark], first...), last...)
+	}()
 	defer func() {
 		p.deferOracle = false
 		for _, f := range p.deferred {
